@@ -741,15 +741,20 @@ def run_identifiers(ctx, idx):
                     acc.fail(sig, {'first': first, 'second': second, 'dialect': dialect, 'observed': repr(obs), 'expected': repr(want)})
     # ---- variables -------------------------------------------------------------------------------
     from mindsdb_sql.parser.ast import Variable
-    VARS = ['x', 'my_var', 'a.b', 'X', 'sess.v', '$v']
+    VARS = ['x', 'my_var', 'a.b', 'X', 'sess.v', '$v',
+            # (quoted spellings only) names that begin / end with a quote character OTHER than their delimiter, or with a blank
+            "rock'n'", '"dq"', 'height_5"', "'lead", '`tick', 'tail`', ' edge ', "it's"]
     for vi, v in enumerate(VARS):
         for sysv in (False, True):
             for quote in ('', "'", '`', '"'):
                 idx += 1
                 if not ctx.mine(idx):
                     continue
+                odd = vi >= 6
+                if odd and (not quote or quote in v):
+                    continue
                 sig_prefix = '@@' if sysv else '@'
-                name = v if not quote else v + ' q'
+                name = v if (not quote or odd) else v + ' q'
                 text = sig_prefix + quote + name + quote
                 for dialect in ('mindsdb', 'mysql'):
                     acc.ev()
@@ -762,9 +767,13 @@ def run_identifiers(ctx, idx):
                         got = (type(n).__name__, getattr(n, 'value', None), getattr(n, 'is_system_var', None))
                     except Exception as e:
                         ok, got = False, 'rejected:' + type(e).__name__
+                        if odd and type(e).__name__ in ('LexError', 'ParsingException'):
+                            # an odd quoted spelling the lexer does not read at all is outside the statement (it speaks of accepted texts)
+                            acc.count('odd_variable_spellings_not_read')
+                            continue
                     if not ok:
                         acc.fail({'direction': 'parse', 'kind': 'variable', 'dialect_class': dialect, 'failure': 'wrong-value' if not isinstance(got, str) else got,
-                                  'feat': ('system+' if sysv else '') + ('quoted:' + quote if quote else 'bare') + ('+dot' if '.' in v else '') + ('+dollar' if '$' in v else '')},
+                                  'feat': ('system+' if sysv else '') + ('quoted:' + quote if quote else 'bare') + ('+dot' if '.' in v else '') + ('+dollar' if '$' in v else '') + ('+other-quote-at-edge' if vi >= 6 else '')},
                                  {'sql': 'SELECT ' + text, 'dialect': dialect, 'got': got, 'expected': name})
 
 
